@@ -535,6 +535,14 @@ func namespaceOf(w *World, fn *ssa.Function, m ssa.Value) string {
 	if key := structFieldKey(m); key != "" && !strings.Contains(key, "/internal/model.") {
 		return "fields"
 	}
+	// the field table of a packet that this very function is constructing (&model.Packet{FieldMap: make(..)} filled in place)
+	if ld, ok := stripIdentity(m).(*ssa.UnOp); ok && ld.Op == token.MUL {
+		if fa, ok := ld.X.(*ssa.FieldAddr); ok {
+			if al, ok := stripIdentity(fa.X).(*ssa.Alloc); ok && al.Parent() == fn {
+				return "fields"
+			}
+		}
+	}
 	return ""
 }
 
@@ -1352,6 +1360,22 @@ func c12Placement(w *World, vpd *ssa.Function, kinds map[string]bool) {
 				}
 			}
 			skips := appendCall == nil || !reachesWithin(b, appendCall, lenTestBlock)
+			// one diagnostic whose message a helper chose: "why can this packet not take a length field" - the helper's non-empty
+			// results are the diagnostics, its guards say which offence each one names
+			var viaHelper []string
+			if kind == "other" {
+				viaHelper = placementKindsOfHelper(w, ins)
+			}
+			if len(viaHelper) > 0 {
+				for _, k := range viaHelper {
+					if skips {
+						kinds[k] = true
+					} else {
+						kinds[k+"(not skipped)"] = true
+					}
+				}
+				continue
+			}
 			if skips {
 				kinds[kind] = true
 			} else {
@@ -1399,6 +1423,13 @@ func dependsOnROOT(v ssa.Value, depth int) bool {
 	case *ssa.BinOp:
 		return dependsOnROOT(x.X, depth+1) || dependsOnROOT(x.Y, depth+1)
 	case *ssa.UnOp:
+		if x.Op == token.MUL {
+			if fa, ok := x.X.(*ssa.FieldAddr); ok {
+				if tn, f, _, _ := fieldOf(fa); tn == "Packet" && f == "IsRoot" {
+					return true // the model's record of the `root` keyword
+				}
+			}
+		}
 		return dependsOnROOT(x.X, depth+1)
 	case *ssa.Phi:
 		for _, e := range x.Edges {
@@ -1804,6 +1835,74 @@ func padCharLexemes(g *Grammar) []string {
 	var out []string
 	for _, mid := range lits[1 : len(lits)-1] {
 		out = append(out, first+mid+last)
+	}
+	return out
+}
+
+// placementKindsOfHelper: the diagnostic at ins takes its message from a string-valued repo helper; which placement offences do the
+// helper's non-empty results stand for? (a result guarded by a *Field nil test: declared twice; by the root flag: outside root)
+func placementKindsOfHelper(w *World, ins ssa.Instruction) []string {
+	c, ok := ins.(ssa.CallInstruction)
+	if !ok {
+		return nil
+	}
+	// the message: Msg member of the SyntaxError literal handed to the call (or a string argument of a wrapper)
+	var msgs []ssa.Value
+	for _, a := range c.Common().Args {
+		a = stripIdentity(a)
+		if al, ok := a.(*ssa.Alloc); ok && al.Referrers() != nil {
+			for _, ref := range *al.Referrers() {
+				fa, ok := ref.(*ssa.FieldAddr)
+				if !ok || fa.Referrers() == nil {
+					continue
+				}
+				if _, f, _, _ := fieldOf(fa); f != "Msg" {
+					continue
+				}
+				for _, r2 := range *fa.Referrers() {
+					if st, ok := r2.(*ssa.Store); ok && st.Addr == ssa.Value(fa) {
+						msgs = append(msgs, st.Val)
+					}
+				}
+			}
+		} else if isStringType(a.Type()) {
+			msgs = append(msgs, a)
+		}
+	}
+	var out []string
+	for _, m := range msgs {
+		call, ok := stripIdentity(m).(*ssa.Call)
+		if !ok {
+			continue
+		}
+		h := call.Call.StaticCallee()
+		if h == nil || h.Blocks == nil || !w.isSubjectFunc(h) {
+			continue
+		}
+		for _, b := range h.Blocks {
+			ret, ok := b.Instrs[len(b.Instrs)-1].(*ssa.Return)
+			if !ok || len(ret.Results) != 1 {
+				continue
+			}
+			if s, isConst := constString(ret.Results[0]); !isConst || s == "" {
+				continue
+			}
+			kind := ""
+			for _, bb := range h.Blocks {
+				cond := branchCond(bb)
+				if cond == nil || !(edgeDominates(bb, 0, b) || edgeDominates(bb, 1, b)) {
+					continue
+				}
+				if v, _, ok := nilTest(cond); ok && typeIs(v.Type(), modPath+"/internal/model", "Field") {
+					kind = "declared-twice"
+				} else if dependsOnROOT(cond, 0) && kind == "" {
+					kind = "outside-root"
+				}
+			}
+			if kind != "" {
+				out = append(out, kind)
+			}
+		}
 	}
 	return out
 }
